@@ -15,10 +15,43 @@ package jsonexpr
 
 //@ scope jsonexpr.go
 
-// Frames only (assumed): the path parser and selector constructors read their arguments.
+// The path parser allocates its result and reads its argument; its reader's cursor stays inside
+// the input (C17: no slice / index panic for any expression text).
 //@ func Parse
-//@   trusted
 //@   modifies nothing
+//@   loop 0 modifies r.pos, sel[*]
+//@   loop 0 invariant r != nil && fresh(r) && 0 <= r.pos && r.pos <= len(r.input) && fresh(sel)
 //@ func KeySel
-//@   trusted
 //@   modifies nothing
+//@ func IndexSel
+//@   modifies nothing
+
+//@ func (*reader).next
+//@   requires 0 <= r.pos
+//@   modifies nothing
+//@   ensures ret1 >= 0 && (ret1 > 0 ==> r.pos + ret1 <= len(r.input))
+//@ func (*reader).Peek
+//@   requires 0 <= r.pos
+//@   modifies nothing
+//@ func (*reader).Read
+//@   requires 0 <= r.pos && r.pos <= len(r.input)
+//@   modifies r.pos
+//@   ensures r.pos >= old(r.pos) && r.pos <= len(r.input)
+//@ func (*reader).scanField
+//@   requires 0 <= r.pos && r.pos <= len(r.input)
+//@   modifies r.pos
+//@   ensures r.pos >= old(r.pos) && r.pos <= len(r.input)
+//@   loop 0 modifies nothing
+//@   loop 0 invariant len(input) <= len(r.input) - r.pos
+//@ func (*reader).scanInteger
+//@   requires 0 <= r.pos && r.pos <= len(r.input)
+//@   modifies r.pos
+//@   ensures r.pos >= old(r.pos) && r.pos <= len(r.input)
+//@   loop 0 modifies nothing
+//@   loop 0 invariant len(input) <= len(r.input) - r.pos
+//@ func (*reader).scanString
+//@   requires 0 <= r.pos && r.pos <= len(r.input)
+//@   modifies r.pos
+//@   ensures r.pos >= old(r.pos) && r.pos <= len(r.input)
+//@   loop 0 modifies nothing
+//@   loop 0 invariant 1 <= i && len(input) <= len(r.input) - r.pos
